@@ -30,6 +30,7 @@ REQUIRED_COUNTERS = ["process_logits_calls", "greedy_calls", "sampling_calls", "
 MIN_NONTRIVIAL = {"quick": 200, "thorough": 2000}
 WORKERS = {"quick": 8, "thorough": 16}
 BUDGET_S = {"quick": 300, "thorough": 1500}
+THOROUGH_ROUNDS = 8
 
 FAMILIES = ["randn", "ties", "all_equal", "huge", "single_feasible", "tail_masked", "peaked", "tiny_gaps", "neg_huge"]
 TS = [0.05, 0.25, 0.5, 1.0, 2.0, 4.0, 10.0, 0.7, 1.7]
